@@ -39,14 +39,14 @@ def energies(arr, kind):
         E[len(E) // 3] -= 430.0
         E[(2 * len(E)) // 3] += 60.0
         return E
-    if kind == "two_basin":  # a high barrier on the middle shell: metastable, second eigenvalue within ~1e-9 of zero
+    if kind.startswith("two_basin"):  # a high barrier on the middle shell: metastable, second eigenvalue within ~1e-9 of zero
         rr = np.round(np.linalg.norm(arr[:, :3], axis=1), 6)
         shells = np.unique(rr)
         # generic (symmetry-breaking) background as in "smooth", plus the barrier; without a middle shell: no such landscape
         E = 2.0 * np.sin(0.3 * x + 0.1) + 1.5 * np.cos(0.5 * y + 0.2 * z) + 1.2 * q[:, 0] - 0.7 * q[:, 2] * q[:, 1]
         if len(shells) < 3:
             return None
-        return E + np.where(rr == shells[len(shells) // 2], 74.0, 0.0)
+        return E + np.where(rr == shells[len(shells) // 2], float(kind[len("two_basin"):] or 74.0), 0.0)
     if kind == "int":        # whole-number energies handed over with an integer dtype
         return np.round(4.0 * np.sin(0.3 * x + 0.1) + 3.0 * np.cos(0.5 * y + 0.2 * z) + 2.5 * q[:, 0]).astype(np.int64)
     if kind == "offset":     # absolute (quantum-chemistry style) energies: small differences on a huge common offset
@@ -131,12 +131,12 @@ def run_case(case):
                     continue
                 dense_sorted = np.sort(dense_ev.real)[::-1]
                 normQ = np.abs(dense_sorted).max()
-                if dense_sorted[0] - dense_sorted[1] < 1e-13 * normQ:
+                if dense_sorted[0] - dense_sorted[1] < 1e-15 * normQ:
                     continue   # zero eigenvalue not simple: grid not connected, outside the statement
                 # metastable case: zero is simple but nearly degenerate -> only order and values are asserted
                 near_degenerate = dense_sorted[0] - dense_sorted[1] < 1e-7 * normQ
                 mid = 0.5 * (dense_sorted[2] + dense_sorted[3])     # a negative shift strictly inside the spectrum
-                for which, sigma, tol in (SETTINGS + [("LM", "mid34", 1e-10)] if ek != "two_basin" else
+                for which, sigma, tol in (SETTINGS + [("LM", "mid34", 1e-10)] if not ek.startswith("two_basin") else
                                           [("LR", None, 1e-10), ("LM", 0.01, 1e-10), ("SR", 0.01, 1e-10)]):
                     if sigma == "mid34":
                         if min(abs(mid - dense_sorted)) < 1e-3 * abs(mid):
@@ -156,7 +156,7 @@ def run_case(case):
                             expected_k = np.sort(dense_sorted[order_k[:k]])[::-1]
                         else:
                             expected_k = dense_sorted[:k]
-                        for seed in case["seeds"]:
+                        for seed in (case["seeds"] if not ek.startswith("two_basin") else [0, 1, 2, 3, 4, 5]):
                             slabel = "mid34" if near is not None else sigma
                             dkey = (f"C14|solver|which={which}|sigma={slabel}|tol={tol:g}|k={k}|n={n}|" + pre[4:] + tag +
                                     f"|seed={seed}")
@@ -232,9 +232,9 @@ def cases(tier):
                 for cart in (False, True):
                     for f in (1, 2):
                         i += 1
-                        dec = (tier == "thorough") or (i % 4 == 0)
+                        dec = (tier == "thorough") or (i % 4 == 0) or b == "1"       # single-rotation grids are small: always
                         out.append({"b": b, "o": o, "t": t, "cartesian": cart, "f": f,
-                                    "energies": ["smooth", "well", "two_basin", "offset", "offset_pos", "int", "deepwell"], "Ts": [273.15, 310.0, 180.0],
+                                    "energies": ["smooth", "well", "two_basin70", "two_basin74", "two_basin77", "offset", "offset_pos", "int", "deepwell"], "Ts": [273.15, 310.0, 180.0],
                                     "decompose": dec,
                                     "ks": [6, 12], "seeds": [0, 1, 2]})
     return out
